@@ -188,16 +188,19 @@ func judge(out *pipe.Outcome, ix *pipe.Index) pipe.Verdict {
 					break
 				}
 			}
-			// ... which also covers a run whose plugins were all torn down before the
-			// force stop was issued and of which only the status write was outstanding
+			// ... which also covers a run whose sources were all torn down before the
+			// force stop was issued: it had drained, only teardown and the status write were left
 			open := map[string]bool{}
 			for i := 0; i < fs && i < len(evs); i++ {
+				// (a source is torn down only after everything it read was acked or
+				// nacked end to end, in both engines: with every source session torn
+				// down the drain is complete and only teardown calls remain)
 				switch evs[i].Kind {
-				case rig.KSrcOpen, rig.KDstOpen:
+				case rig.KSrcOpen:
 					if evs[i].Err == "" {
 						open[fmt.Sprintf("%s#%d", evs[i].Comp, evs[i].Sess)] = true
 					}
-				case rig.KSrcTeardown, rig.KDstTeardown:
+				case rig.KSrcTeardown:
 					delete(open, fmt.Sprintf("%s#%d", evs[i].Comp, evs[i].Sess))
 				}
 			}
